@@ -241,7 +241,12 @@ func (e *Engine) sendPoisonPill(ctx context.Context, graceful bool, pid *PID) co
 	// even if a local actor happens to have the same id.
 	local := pid != nil && e.isLocalMessage(pid)
 	if local {
-		proc = e.Registry.get(pid)
+		// Only actors take stop requests. The other processers (the response of
+		// a Request, the stream writers of a remote) would treat the pill as a
+		// message and never signal the context.
+		if p, ok := e.Registry.get(pid).(*process); ok {
+			proc = p
+		}
 	}
 	if proc == nil {
 		// The process can be unregistered and still be handling Stopped: the
